@@ -1,10 +1,11 @@
-\* (M) ideal keys: Fresh holds over all histories of 8 steps on 1 path
+\* (M) ideal keys: Fresh holds over all histories of 7 steps on 1 path
 CONSTANTS Paths = {1}
           NVersions = 3
           Modes = {0, 1, 2}
-          MaxActions = 8
+          MaxActions = 7
           KeyModel = 0
           VStep = {1, 2}
+          TimeChoices = {0, 1, 2, 3, 4}
           WithX = TRUE
           EmitOn = FALSE
           Sim = FALSE
